@@ -206,6 +206,13 @@ func c03Exprs(c *core.Ctx, fam5 bool, maxOps int, fn func(toks []synm.Tok, txt [
 	}
 	prefixes = append(prefixes, pre{toks: []synm.Tok{{Typ: "preinc", Lex: "++"}}, txt: []string{"++"}, ops: 1}, pre{toks: []synm.Tok{{Typ: "preinc", Lex: "--"}}, txt: []string{"--"}, ops: 1},
 		pre{ops: 1, post: true})
+	// two stacked prefix operators (`- --$a`, `!(int)$a`, `-- -$a`, `@new …`): every ordered pair
+	single := append([]pre{}, prefixes[1:len(prefixes)-1]...)
+	for _, a := range single {
+		for _, b := range single {
+			prefixes = append(prefixes, pre{toks: append(append([]synm.Tok{}, a.toks...), b.toks...), txt: append(append([]string{}, a.txt...), b.txt...), ops: 2})
+		}
+	}
 	atoms := []string{"$a", "$b", "$c", "$d", "$e", "$f", "$g", "$h", "$i"}
 	var gen func(toks []synm.Tok, txt []string, ops int, ai int)
 	gen = func(toks []synm.Tok, txt []string, ops int, ai int) {
